@@ -30,6 +30,25 @@ class StringScanner(TokenScanner):
         self.line_number = 0
 
 
+class CountingIdGen:
+    """duck-typed id generator owned by the harness (the documented interface is get_next_id)"""
+
+    def __init__(self, start=0):
+        self.n = start
+
+    def get_next_id(self):
+        r = str(self.n)
+        self.n += 1
+        return r
+
+
+def read_counter(g, fallback=None):
+    if isinstance(g, CountingIdGen):
+        return g.n
+    v = getattr(g, "_id_counter", None)
+    return v if isinstance(v, int) else fallback
+
+
 class CountingMatcher(TokenMatcher):
     def __init__(self, *a, **k):
         super().__init__(*a, **k)
@@ -79,7 +98,7 @@ def parse_with(parser, matcher, idgen, stop, src):
     except Exception as e:  # noqa
         return foreign(e)
     out["matcher"] = mstate_json(matcher)
-    out["idc"] = idgen._id_counter
+    out["idc"] = read_counter(idgen)
     out["calls"] = matcher.calls
     return out
 
@@ -89,14 +108,14 @@ def parse(stop, dialect, src):
         m = CountingMatcher(dialect)
     except ParserException:
         return {"nosuchlanguage": None}
-    g = IdGenerator()
+    g = CountingIdGen()
     p = Parser(AstBuilder(g))
     return parse_with(p, m, g, stop, src)
 
 
 def parse_history(dialect, hist):
     m = CountingMatcher(dialect)
-    g = IdGenerator()
+    g = CountingIdGen()
     p = Parser(AstBuilder(g))
     out = []
     for stop, src in hist:
@@ -107,18 +126,21 @@ def parse_history(dialect, hist):
     return out
 
 
+_GEN = CountingIdGen()
+_COMPILER = Compiler(_GEN)      # one long-lived Compiler per worker process (reuse across documents is part of the API)
+
+
 def compile_doc(uri, doc, idc):
-    g = IdGenerator()
-    g._id_counter = idc
+    _GEN.n = idc
     d = copy.deepcopy(doc)
     d["uri"] = uri
     try:
-        ps = Compiler(g).compile(d)
+        ps = copy.deepcopy(_COMPILER.compile(d))
     except IndexError:
         return {"crash": None}
     except Exception as e:  # noqa
         return foreign(e)
-    return {"pickles": ps, "idc": g._id_counter}
+    return {"pickles": ps, "idc": _GEN.n}
 
 
 def events(ps, pa, pp, srcs):
@@ -133,7 +155,7 @@ def events(ps, pa, pp, srcs):
             out.extend(copy.deepcopy(x) for x in ge.enum(ev))
     except Exception as e:  # noqa
         return foreign(e)
-    return {"envelopes": out, "idc": ge.id_generator._id_counter}
+    return {"envelopes": out, "idc": read_counter(ge.id_generator)}
 
 
 def tokens(dialect, src):
@@ -198,12 +220,20 @@ def match(kind, ms, line, n):
 
 
 def interpolate(name, hs, vs):
-    try:
-        return {"ok": Compiler()._interpolate(name, [{"value": h} for h in hs], [{"value": v} for v in vs])}
-    except IndexError:
-        return {"crash": None}
-    except Exception as e:  # noqa
-        return foreign(e)
+    """placeholder substitution through the public API: the name of the pickle of a one-row outline"""
+    loc = {"line": 1, "column": 1}
+    ex = {"id": "3", "tags": [], "location": loc, "keyword": "Examples", "name": "", "description": "",
+          "tableHeader": {"id": "1", "location": loc, "cells": [{"location": loc, "value": h} for h in hs]},
+          "tableBody": [{"id": "2", "location": loc, "cells": [{"location": loc, "value": v} for v in vs]}]}
+    sc = {"id": "4", "tags": [], "location": loc, "keyword": "Scenario Outline", "name": name, "description": "", "steps": [], "examples": [ex]}
+    doc = {"feature": {"tags": [], "location": loc, "language": "en", "keyword": "Feature", "name": "", "description": "",
+                       "children": [{"scenario": sc}]}, "comments": []}
+    r = compile_doc("u", doc, 5)
+    if "pickles" in r:
+        if len(r["pickles"]) != 1:
+            return {"foreign": "pickles", "text": "%d pickles for a one-row outline" % len(r["pickles"])}
+        return {"ok": r["pickles"][0]["name"]}
+    return r
 
 
 FUNCS = {"parse": parse, "parse_history": parse_history, "compile": compile_doc, "events": events,
